@@ -272,6 +272,75 @@ def run_single(graph, sp, ending_name, edit, boom, what, twin):
             w.close()
 
 
+def rename_account(f):
+    """One edit of the model: Assets:Old -> Assets:New, or (second time) Assets:New -> Assets:Newer; returns the text transformer."""
+    for d in f.raw_directives:
+        if isinstance(d, M.Open) and d.account in ('Assets:Old', 'Assets:New'):
+            old, new = d.account, ('Assets:New' if d.account == 'Assets:Old' else 'Assets:Newer')
+            d.account = new
+            return lambda t: t.replace(old, new)
+    raise Fail('scaffold directive not found')
+
+
+def make_twice(api, graph, twin=False):
+    """The SAME Editor object runs two blocks on the same entry, one after the other: each block may edit and may raise.  What is
+    on disk afterwards is determined block by block from what was on disk before it (a raising block leaves nothing behind, in
+    particular nothing that a later block could write out); a block that edits nothing rewrites nothing."""
+    target = 'w/main.bean' if api == 'edit_file' else 'w/a.bean'
+
+    def cell(spelling: int, ending: int, e1: bool, b1: bool, e2: bool, b2: bool) -> None:
+        assert 0 <= spelling < len(SPELLING_NAMES) and 0 <= ending < len(ENDINGS)
+        sp = SPELLING_NAMES[pick(spelling, 0, len(SPELLING_NAMES) - 1)]
+        ending_name = ENDINGS[pick(ending, 0, len(ENDINGS) - 1)]
+        e1, b1, e2, b2 = bool(pick(e1, 0, 1)), bool(pick(b1, 0, 1)), bool(pick(e2, 0, 1)), bool(pick(b2, 0, 1))
+        what = '%s twice with one Editor, graph=%s entry=%s endings=%s: block 1 edited=%s raising=%s, block 2 edited=%s raising=%s:' % (api, graph, sp, ending_name, e1, b1, e2, b2)
+        with NoTracing():
+            w, files, entry, cwd = make_world(graph, sp, ending_name)
+            try:
+                init_dirs = w.dirs()
+                ed = editor_lib.Editor(ParserShim())
+                w.bind(editor_lib)
+                disk = dict(files)
+                written = False
+                try:
+                    for edit, boom in ((e1, b1), (e2, b2)):
+                        fn = None
+                        before_block = w.snapshot()
+                        try:
+                            if api == 'edit_file':
+                                with ed.edit_file(entry) as f:
+                                    if edit:
+                                        fn = rename_account(f)
+                                    if boom:
+                                        raise Boom()
+                            else:
+                                with ed.edit_file_recursive(entry) as fs:
+                                    key = next(k for k in fs if rel_of_key(w, cwd, k) == target)
+                                    if edit:
+                                        fn = rename_account(fs[key])
+                                    if boom:
+                                        raise Boom()
+                        except Boom:
+                            fn = None
+                        if fn is not None:
+                            disk[target] = fn(disk[target])
+                            written = True
+                        snap = w.snapshot()
+                        for p_, t in disk.items():
+                            check(snap[p_][0] == t, what, 'after a block', p_, 'holds', R(snap[p_][0]), 'expected', R(t))
+                            if fn is None:
+                                check(snap[p_][1] == before_block[p_][1], what, p_, 'was rewritten by a block that changed nothing (or raised)')
+                finally:
+                    w.unbind()
+                if twin:
+                    raise Fail('twin reached the assertion point')
+                compare_fs(w, {p_: (t, None if (written and p_ == target) else False) for p_, t in disk.items()}, init_dirs, set(), what)
+            finally:
+                w.close()
+
+    return 'twice_%s_%s%s' % (api, graph, '_twin' if twin else ''), cell
+
+
 def make_nomatch():
     def cell(spelling: int, ending: int) -> None:
         assert 0 <= spelling < len(SPELLING_NAMES) and 0 <= ending < len(ENDINGS)
@@ -425,6 +494,10 @@ for _g in GRAPHS:
             _reg(make_recursive(_g, _s), _tier, 900, 'recursive', _b % '5', cost=100 * 2 ** len(GRAPHS[_g]['reach']))
 for _g in ('single', 'chain', 'glob'):
     _reg(make_single(_g), {'C16': Q}, 600, 'single', 'edit_file on graph %r; symbolic: path spelling (7), line endings (5), edited or not, body raising' % _g, cost=60)
+for _api, _g in (('edit_file', 'single'), ('edit_file_recursive', 'chain'), ('edit_file', 'chain'), ('edit_file_recursive', 'diamond')):
+    _reg(make_twice(_api, _g), {'C16': Q if _g in ('single', 'chain') and (_api, _g) != ('edit_file', 'chain') else T}, 600, 'twice',
+         '%s on graph %r run twice by the SAME Editor: symbolic path spelling (7), line endings (5), each block edits or not and raises or not' % (_api, _g), cost=100)
+_reg(make_twice('edit_file', 'single', twin=True), {'C16': Q}, 120, 'twice', 'vacuity twin', twin=True, cost=1)
 _reg(make_nomatch(), {'C16': Q}, 600, 'nomatch', 'include pattern without a match: ValueError naming file and line, nothing touched; symbolic: spelling, endings', cost=30)
 _reg(make_recursive('chain', 'bare', twin=True), {'C16': Q}, 300, 'recursive', 'vacuity twin', twin=True, cost=5)
 _reg(make_single('single', twin=True), {'C16': Q}, 300, 'single', 'vacuity twin', twin=True, cost=5)
